@@ -31,6 +31,16 @@ HARNESSES = [
          unwind=6, backends=["default", "kissat", "z3"], witness_per_config=True,
          bound="table of <= 4 runs, locations/lengths < 2^62 (sorted table, add) or < 2^31 (paths through the qsort comparator); "
                "probe address: all 2^64 values"),
+    dict(name="newsize", src="newsize.c",
+         funcs=["adjust_new_size", "adjust_fs_info", "ext2fs_bg_has_super", "test_root"],
+         extra_src=["lib/ext2fs/closefs.c", "lib/ext2fs/blknum.c"],
+         configs=[{"LOGBS": 0, "BPG": 8192, "DESC": 32, "SBITS": 32},
+                  {"LOGBS": 2, "BPG": 32768, "DESC": 32, "SBITS": 32},
+                  {"LOGBS": 2, "BPG": 32768, "DESC": 64, "SBITS": 36}],
+         unwind=4, unwindset=["test_root.0:17", "ref_is_power.0:25"],
+         backends=["default", "kissat", "z3"],
+         bound="requested/old size: every value < 2^32 (2^36 with 64bit descriptors); block size 1 KiB / 4 KiB, 8192 / 32768 blocks per group "
+               "(concrete per query); inodes per group, inode-table size, reserved GDT blocks, sparse_super / sparse_super2 + backup groups: symbolic"),
 ]
 MANIFEST = {
     "text": "Bounded-exhaustive within each harness's stated bounds.",
